@@ -60,7 +60,7 @@ UNITS = [
          ),
     Unit(name="indexer_has", file=IX, anchor="pub fn has(&self, tpe: BlobType, id: &BlobId) -> bool", within="impl<BE: DecryptWriteBackend> Indexer<BE> {", ret_name="r", **W,
          functions=["index::indexer::Indexer::has"],
-         rewrites=[Rw(r"self\.indexed\s*\.as_ref\(\)\s*\.is_some_and\(\|indexed\| (?P<body>[^\n]*)\)\n", r"match self.indexed.as_ref() { Some(indexed) => \g<body>, None => false }\n", regex=True,
+         rewrites=[Rw(r"self\s*\.indexed\s*\.as_ref\(\)\s*\.is_some_and\(\|indexed\| (?P<body>[^\n]*)\)(?=\n)", r"(match self.indexed.as_ref() { Some(indexed) => \g<body>, None => false })", regex=True,
                       why="Option::is_some_and with a closure literal replaced by its definition (match), body verbatim")],
          contract="""
     ensures
